@@ -404,8 +404,9 @@ class ExactAlgorithmCplex(ExactAlgorithmBase, PairwiseBasedAlgorithm):
             cost_to_place_before = cost_matrix[el_1][el_2][0]
             cost_to_place_after = cost_matrix[el_1][el_2][1]
             calc: float = cost_to_place_before + cost_to_place_after - 2 * cost_to_tie
-            # if the test fails, then the optimization cannot be used
-            if calc > ExactAlgorithmCplex._PRECISION_THRESHOLD:
+            # if the test fails, then the optimization cannot be used. The tolerance (float rounding only) is relative
+            # to the costs: an absolute one would hold for every pair as soon as the penalties are in small units
+            if calc > 1e-9 * (cost_to_place_before + cost_to_place_after + 2 * cost_to_tie):
                 can_have_no_ties = False
                 break
 
